@@ -1,2 +1,4 @@
-import Tumfl.Props.C11
-#print axioms Tumfl.Props.C11_roundtrip
+import Tumfl.Props.C13
+#print axioms Tumfl.Props.C13_emit_on
+#print axioms Tumfl.Props.C13_emit_off
+#print axioms Tumfl.Props.C13_placement
